@@ -18,7 +18,7 @@ META = {
     "id": "C18",
     "technique": "Coq proof (induction over tick histories; per-style variants and invariants; finite obligations over tables regenerated from the source) + extracted-model correspondence with the real LCD object and with the emitted C++ animation helpers run under the mock core + trace oracle",
     "level_text": "Theorems C18_* (coq/Props/C18.v) are proved for all texts, widths >= 1, speeds, loop flags and all tick-time sequences about Gallina transcriptions of LCD.animate/LCD.tick and of the four __redu_lcd_start_*/__redu_lcd_tick_* template pairs plus the tick-injection rule, and (C18_tables_complete) about the style/helper tables and helper texts re-read from emitter.py, parser.py and LCD.py on every run; the models are run side by side with the real host object (buffer assignments and every _AnimationState field after each tick) and with the compiled firmware (cell writes and DDRAM dump per loop() pass).",
-    "level_note": "Trusted: Coq kernel, extraction, OCaml driver, the mock LiquidCrystal/LiquidCrystal_I2C (cursor-addressed DDRAM) and its virtual millis(), g++. The theorems are about the models; the correspondence bounds their distance from LCD.py / emitter.py. Tick injection is proved without a guard on the place of the call site (C18_tick_injected, C18_loop_site_ticked, C18_function_site_ticked): before the main loop, inside `while True:` and inside function bodies, at any depth inside if/elif/else, while, for and try/except bodies (Device/DLCDInject.v: the parser's name collection and the emitter's registration pass as two recursive walks over statement trees, C18_nested_*); the two former refutations (animate inside `while True:` never ticked; animate inside a def undeclared) were repaired in Reduino and are kept as kind=fixed entries whose witnesses are replayed first on every run (a witness that fails again is a VIOLATION) - C18_nested_*).",
+    "level_note": "Trusted: Coq kernel, extraction, OCaml driver, the mock LiquidCrystal/LiquidCrystal_I2C (cursor-addressed DDRAM) and its virtual millis(), g++. The theorems are about the models; the correspondence bounds their distance from LCD.py / emitter.py. Tick injection is proved without a guard on the place of the call site (C18_tick_injected, C18_loop_site_ticked, C18_function_site_ticked): before the main loop, inside `while True:` and inside function bodies, at any depth inside if/elif/else, while, for and try/except bodies (Device/DLCDInject.v: the parser's name collection and the emitter's registration pass as two recursive walks over statement trees, C18_nested_*); the two former refutations (animate inside `while True:` never ticked; animate inside a def undeclared) were repaired in Reduino and are kept as kind=fixed entries whose witnesses are replayed first on every run (a witness that fails again is a VIOLATION).",
     "design_ref": "DESIGN.md section 4 C18 (and C05 for tick injection)",
 }
 
